@@ -1537,6 +1537,20 @@ class ReceivePackHandler(PackHandler):
                         ref_status = b"bad ref"
                         has_failure = True
 
+                if ref_status == b"ok":
+                    # Compare with the current value now, so that a stale old
+                    # value rejects the whole push before any ref is touched.
+                    try:
+                        current = self.repo.refs[ref]
+                    except KeyError:
+                        current = zero_sha
+                    if current != oldsha:
+                        ref_status = b"failed to update ref"
+                        has_failure = True
+                    elif sha != zero_sha and sha not in self.repo.object_store:
+                        ref_status = b"missing necessary objects"
+                        has_failure = True
+
                 ref_results.append((ref, ref_status))
 
             if has_failure:
